@@ -289,7 +289,7 @@ class IpaddrOrHostname(RegularExpressionConversion):
                 r"(\d|[01]?\d\d|2[0-4]\d|25[0-5])\."    # ipaddr cont'd
                 r"(\d|[01]?\d\d|2[0-4]\d|25[0-5])\."    # ipaddr cont'd
                 r"(\d|[01]?\d\d|2[0-4]\d|25[0-5])$)"    # ipaddr cont'd
-                r"|([A-Za-z_][-A-Za-z0-9_.]*[-A-Za-z0-9_])"  # or hostname
+                r"|([A-Za-z_][-A-Za-z0-9_.]*[-A-Za-z0-9_]$)"  # or hostname
                 # or superset of IPv6 addresses (requiring at least one colon)
                 r"|([0-9A-Fa-f:.]+:[0-9A-Fa-f:.]*)"
                 )
